@@ -41,17 +41,43 @@ LimbsVal(a, base) ==
 (* an index usable for a slice of n shards *)
 InRange(n, i) == i \in 0..(n - 1)
 
-(* Hash route.  `obs` is a set of earlier observations [h |-> hash,        *)
-(* i |-> index].  A new observation (h, i) is compatible with a monotone   *)
-(* partition of the hash space into consecutive intervals iff it is        *)
-(* ordered like every earlier one; equal hashes must give equal indices    *)
-(* (every hash value belongs to exactly one shard).                        *)
-HashOK(obs, h, i) ==
-  \A o \in obs :
+(* Hash route, reference formulation.  `O` is a set of earlier            *)
+(* observations [h |-> hash, i |-> index].  A new observation (h, i) is    *)
+(* compatible with a partition of the hash space into consecutive          *)
+(* intervals iff it is ordered like every earlier one; equal hashes must   *)
+(* give equal indices (every hash value belongs to exactly one shard).     *)
+HashOK(O, h, i) ==
+  \A o \in O :
     LET c == LimbCmp(o.h, h) IN
       /\ c = -1 => o.i <= i
       /\ c = 1  => i <= o.i
       /\ c = 0  => o.i = i
+
+(* The same judgement on the observations kept as a sequence sorted by     *)
+(* hash (strictly ascending): only the two neighbours of h matter.  Traces *)
+(* carry thousands of observations; this keeps validation O(log) per       *)
+(* event.  Shard_MC_route.cfg checks that both formulations agree in every *)
+(* reachable state for every candidate observation (FastIsRef).            *)
+(* LowerBound: how many observations have a hash < h (bisection).          *)
+RECURSIVE LowerBound(_, _, _, _)
+LowerBound(s, h, lo, hi) ==
+  IF lo < hi
+  THEN LET mid == (lo + hi) \div 2 IN
+         IF LimbCmp(s[mid + 1].h, h) = -1 THEN LowerBound(s, h, mid + 1, hi)
+         ELSE LowerBound(s, h, lo, mid)
+  ELSE lo
+
+HashOKSeq(s, h, i) ==
+  LET p == LowerBound(s, h, 0, Len(s)) IN
+    /\ p >= 1 => s[p].i <= i
+    /\ p < Len(s) => IF s[p + 1].h = h THEN s[p + 1].i = i ELSE i <= s[p + 1].i
+
+InsertObs(s, h, i) ==
+  LET p == LowerBound(s, h, 0, Len(s)) IN
+    IF p < Len(s) /\ s[p + 1].h = h THEN s
+    ELSE SubSeq(s, 1, p) \o <<[h |-> h, i |-> i]>> \o SubSeq(s, p + 1, Len(s))
+
+SeqRange(s) == {s[j] : j \in 1..Len(s)}
 
 (* extend / restrict a function *)
 Ext(f, k, v) == [x \in DOMAIN f \cup {k} |-> IF x = k THEN v ELSE f[x]]
